@@ -149,10 +149,13 @@ def conv(ra, v):
 
 
 def obs(ra, r):
+  """what a caller observes: CLASH iff the reference itself is marked incompatible (r.IsBadType()). A clash that
+  survives only nested inside an otherwise healthy list/record is reported separately: error reporting looks at the top."""
   try:
-    return conv(ra, ra.VeryConcreteType(r))
+    v = conv(ra, ra.VeryConcreteType(r))
   except Clash:
-    return 'CLASH'
+    return 'CLASH' if r.IsBadType() else 'NESTED-CLASH'
+  return v
 
 
 def check_pair(ra, a, b, bad):
